@@ -32,9 +32,12 @@ Definition lexical (dy dm dd dh dmi ds : list ascii) : string :=
   string_of_list_ascii ("P"%char :: dy ++ "Y"%char :: dm ++ "M"%char :: dd ++ "D"%char :: "T"%char ::
                         dh ++ "H"%char :: dmi ++ "M"%char :: ds ++ "S"%char :: [])%list.
 
-Lemma add_group_some d u a : d <> [] -> int64_ok (digits_val d) = true ->
-  add_group (Some d) u (Some a) = Some (wrap64 (a + digits_val d * u)).
-Proof. intros Hn Hok. unfold add_group. destruct d; [congruence|]. rewrite Hok. reflexivity. Qed.
+Lemma add_group_some d u a : d <> [] -> int64_ok (digits_val d) = true -> a + digits_val d * u < two63 ->
+  add_group (Some d) u (Some a) = Some (a + digits_val d * u).
+Proof.
+  intros Hn Hok Hlt. unfold add_group. destruct d; [congruence|]. rewrite Hok.
+  destruct (Z.ltb_spec (a + digits_val (a0 :: d) * u) two63) as [_|Hge]; [reflexivity|lia].
+Qed.
 
 (* full form P<y>Y<mo>M<d>DT<h>H<mi>M<s>S, any number of digits per field, no int64 overflow *)
 Theorem duration_value dy dm dd dh dmi ds :
@@ -68,12 +71,12 @@ Proof.
   assert (Ih : int64_ok h = true) by (apply (B h 3600000000000); lia).
   assert (Imi : int64_ok mi = true) by (apply (B mi 60000000000); lia).
   assert (Is : int64_ok s = true) by (apply (B s 1000000000); lia).
-  rewrite (add_group_some dy _ 0 Ny Iy). rewrite wrap64_id by (unfold two63; fold y; lia).
-  rewrite (add_group_some dm _ _ Nm Im). rewrite wrap64_id by (unfold two63; fold y mo; lia).
-  rewrite (add_group_some dd _ _ Nd Id). rewrite wrap64_id by (unfold two63; fold y mo d; lia).
-  rewrite (add_group_some dh _ _ Nh Ih). rewrite wrap64_id by (unfold two63, hour_ns; fold y mo d h; lia).
-  rewrite (add_group_some dmi _ _ Nmi Imi). rewrite wrap64_id by (unfold two63, hour_ns; fold y mo d h mi; lia).
-  rewrite (add_group_some ds _ _ Ns Is). rewrite wrap64_id by (unfold two63, hour_ns; fold y mo d h mi s; lia).
+  rewrite (add_group_some dy _ 0 Ny Iy) by (unfold two63; fold y; lia).
+  rewrite (add_group_some dm _ _ Nm Im) by (unfold two63; fold y mo; lia).
+  rewrite (add_group_some dd _ _ Nd Id) by (unfold two63; fold y mo d; lia).
+  rewrite (add_group_some dh _ _ Nh Ih) by (unfold two63, hour_ns; fold y mo d h; lia).
+  rewrite (add_group_some dmi _ _ Nmi Imi) by (unfold two63, hour_ns; fold y mo d h mi; lia).
+  rewrite (add_group_some ds _ _ Ns Is) by (unfold two63, hour_ns; fold y mo d h mi s; lia).
   first [reflexivity | f_equal; unfold hour_ns; lia].
 Qed.
 
